@@ -12,7 +12,7 @@ CHECKS = {
         note="Trusts: task atomicity (numba nogil kernels), NUMBA_BOUNDSCHECK=1 for memory safety, the 60-line reference model in gbsim/c04.py, numpy/pyarrow. "
         "The int64-sum-with-int64.min cell is compared only within one container type.",
         design="4.2",
-        technique="deterministic simulation: simulated thread pool + seeded schedules + injected worker/spawn failures and statement-level crash points; reference-model and block-wise-vs-single-pass oracles",
+        technique="deterministic simulation: simulated thread pool (task-atomic and pre-emptive models) + seeded schedules + injected worker/spawn failures and statement-level crash points; reference-model and block-wise-vs-single-pass oracles",
     ),
 }
 
@@ -23,7 +23,7 @@ CHECKS["C20"] = dict(
     "evaluated alongside against their definitions; the level claimed rests on the reducer clause. Sampling: evidence, not proof.",
     note="Trusts NumPy as the oracle, task atomicity, NUMBA_BOUNDSCHECK=1. Integer arrays never contain int64.min (library null marker, no NumPy counterpart).",
     design="4.5",
-    technique="deterministic simulation: simulated thread pool + simulated cpu_count + rescaled thread heuristic + injected worker failures and statement-level crash points; NumPy reference oracle",
+    technique="deterministic simulation: simulated thread pool (task-atomic and pre-emptive models) + simulated cpu_count + rescaled thread heuristic + injected worker failures and statement-level crash points; NumPy reference oracle",
 )
 
 CHECKS["C03"] = dict(
@@ -35,7 +35,7 @@ CHECKS["C03"] = dict(
     note="Trusts the baseline strategy as reference (a defect identical under every strategy is invisible by design), task atomicity, NUMBA_BOUNDSCHECK=1, "
     "the canonical comparison of gbsim/compare.py (index dtype and integer width ignored; float sums within a derived bound).",
     design="4.1",
-    technique="deterministic simulation: simulated thread pool and machine, rescaled strategy literals, seeded schedules, injected worker/spawn failures and statement-level crash points; relational strategy-vs-baseline and schedule-vs-schedule oracles",
+    technique="deterministic simulation: simulated thread pool and machine, rescaled strategy literals, seeded schedules incl. pre-emption inside task bodies, injected worker/spawn failures and statement-level crash points; relational strategy-vs-baseline and schedule-vs-schedule oracles",
 )
 
 CHECKS["C13"] = dict(
@@ -98,7 +98,7 @@ def main():
                 "path": "/verif/gbsim",
                 "serves_properties": sorted(CHECKS),
                 "kind_free_text": "deterministic simulator: choice-sequence engine (one seed -> scenario + schedule + fault plan), discrete-event task-atomic model of the "
-                "thread pool, simulated machine and rescaled strategy knobs, relational and reference-model oracles, shrinking, replay files",
+                "thread pool plus a pre-emptive model (task bodies in real threads, one baton, pre-emption at library line events), statement-level crash points (sys.settrace), simulated machine and rescaled strategy knobs, relational and reference-model oracles, shrinking, replay files",
             }
         ],
         "checks": [
